@@ -410,4 +410,5 @@ pub fn run(ctx: &mut Ctx) {
     }
     crate::spaces::render_probes(ctx, &["var"]);
     crate::spaces::width_probes(ctx);
+    crate::spaces::type_grid_probes(ctx, &["var"]);
 }
